@@ -28,6 +28,8 @@ def _worker(args):
     rt.ctx.stats.clear()
     rt.ctx.entered = set()
     t = time.time()
+    budget = float(os.environ.get("SX_JOB_BUDGET_S", "0") or 0) or getattr(mod, "JOB_BUDGET_S", 900)
+    rt.ctx.deadline = t + budget
     res = {"job": job, "violations": _Capped(), "witnesses": [], "inconclusive": [], "notes": [], "obligations": 0}
     try:
         mod.run_job(job, res)
@@ -111,6 +113,8 @@ def run_check(pid, tier, modname):
     from sx import selftest
 
     st = selftest.run()
+    import schwifty  # noqa: F401  instrumented import happens once, in the parent, before the workers fork
+
     mod = importlib.import_module(modname)
     prep = getattr(mod, "prepare", None)
     pre = prep(tier, seed) if prep else {}
